@@ -60,10 +60,27 @@ namespace nmtools::utl
                 , "unsupported type for either assignment"
             );
             if constexpr (meta::is_same_v<T,left_type>) {
+                if constexpr (!meta::is_trivially_destructible_v<left_type> || !meta::is_trivially_destructible_v<right_type>) {
+                    // the inactive alternative is not a live object: destroy the active one and construct in place
+                    if (self().tag != Derived::LEFT) {
+                        self().right.~right_type();
+                        new(&self().left) left_type(val);
+                        self().tag = Derived::LEFT;
+                        return self();
+                    }
+                }
                 self().left = val;
                 self().tag  = Derived::LEFT;
                 return self();
             } else if constexpr (meta::is_same_v<T,right_type>) {
+                if constexpr (!meta::is_trivially_destructible_v<left_type> || !meta::is_trivially_destructible_v<right_type>) {
+                    if (self().tag != Derived::RIGHT) {
+                        self().left.~left_type();
+                        new(&self().right) right_type(val);
+                        self().tag = Derived::RIGHT;
+                        return self();
+                    }
+                }
                 self().right = val;
                 self().tag   = Derived::RIGHT;
                 return self();
@@ -228,21 +245,20 @@ namespace nmtools::utl
         {
             tag = other.tag;
             if (other.tag == LEFT) {
-                if constexpr (meta::is_copy_assignable_v<left_t>) {
-                    left = other.left;
-                } else {
-                    new(&this->left) left_t(other.left);
-                }
+                new(&this->left) left_t(other.left);
             } else {
-                if constexpr (meta::is_copy_assignable_v<right_t>) {
-                    right = other.right;
-                } else {
-                    new(&this->right) right_t(other.right);
-                }
+                new(&this->right) right_t(other.right);
             }
         }
 
-        ~either() {}
+        ~either()
+        {
+            if (tag == LEFT) {
+                left.~left_t();
+            } else {
+                right.~right_t();
+            }
+        }
 
         template <typename U>
         constexpr either& operator=(const U& val) noexcept
@@ -255,10 +271,12 @@ namespace nmtools::utl
             if (other.tag != tag) {
                 if (other.tag == LEFT) {
                     // left = left_type{};
+                    this->right.~right_t();
                     new(&this->left) left_t{};
                     tag = LEFT;
                 } else {
                     // right = right_type{};
+                    this->left.~left_t();
                     new(&this->right) right_t{};
                     tag = RIGHT;
                 }
